@@ -228,7 +228,8 @@ class ABNF:
         fin: int
             fin flag. if set to 0, create continue fragmentation.
         """
-        if opcode == ABNF.OPCODE_TEXT and isinstance(data, str):
+        if opcode in (ABNF.OPCODE_TEXT, ABNF.OPCODE_CONT) and isinstance(data, str):
+            # (a str continuation frame continues a text message)
             data = data.encode("utf-8")
         # mask must be set if send data from client
         return ABNF(fin, 0, 0, 0, opcode, 1, data)
